@@ -34,6 +34,10 @@ VARIANTS = {
 }
 
 
+# gcc (the repository's compiler) accepts some constructs with a warning that clang rejects; keep the clang builds as lenient
+CLANG_LENIENT = ["-Wno-c++11-narrowing", "-Wno-error=c++11-narrowing", "-Wno-everything"]
+
+
 def repo():
     return os.environ.get("VERIF_REPO", "/repo")
 
@@ -121,6 +125,8 @@ def build_lib(variant="rel", cache_size=4, extra_flags=()):
     v = VARIANTS[variant]
     r = repo()
     flags = ["-std=c++17", "-D%s" % GUARD, "-DDSPLIB_FFT_CACHE_SIZE=%d" % cache_size] + v["flags"] + list(extra_flags)
+    if v["cxx"].startswith("clang"):
+        flags += CLANG_LENIENT
     key = "%s-%s" % (variant, tree_hash(" ".join([v["cxx"]] + flags)))
     parent = os.path.join(BUILD, "lib")
     d = os.path.join(parent, key)
